@@ -124,7 +124,7 @@ def main():
                 "evidence_file": "/verif/evidence/%s.json" % pid,
                 "replay_cmd_template": "./check %s --replay {path}" % pid,
                 "engine": engine,
-                "level_claimed": {"category": cat, "text": text, "design_ref": ref},
+                "level_claimed": {"category": cat, "text": text + " Workload families and oracle refinements added after the seeded waves (DESIGN.md Appendix K, J.5) are part of the check; the evidence file's rule text and coverage keys list what a run actually exercised.", "design_ref": ref + ", Appendix K"},
                 "level_note": note,
                 "technique": tech,
             })
